@@ -236,6 +236,10 @@ type variant struct {
 	// CapEvery: after every block the node applies (parent blocks included) its snapshot diff layers are merged into the
 	// disk layer (chains only)
 	CapEvery bool `json:"flatten_snapshot_every_block,omitempty"`
+	// Generating: the node executes the block(s) under test while its snapshot is still being generated and the generator has
+	// not covered any account yet (held deterministically, see VerifC06HoldSnapshotGeneration); the parent blocks are
+	// executed before, with the finished snapshot
+	Generating bool `json:"snapshot_generation_held,omitempty"`
 }
 
 func (v variant) String() string {
@@ -245,6 +249,9 @@ func (v variant) String() string {
 	}
 	if v.Cold {
 		s += ",cold"
+	}
+	if v.Generating {
+		s += ",snapshot-still-generating"
 	}
 	return s
 }
@@ -295,6 +302,11 @@ func variantsFor(p *prestate, seqLen int) []variant {
 		}
 		cold(0b0110)
 		cold(0b1111)
+	}
+	// a snapshot node whose snapshot is still being generated when the block executes
+	vs = append(vs, variant{Cfg: cfgFromBits(0b0010), Rep: 1, Generating: true})
+	if r.Thorough() && seqLen <= 2 {
+		vs = append(vs, variant{Cfg: cfgFromBits(0b0111), Rep: 1, Generating: true})
 	}
 	vs[0].Scratch = true // == refVariant
 	return vs
@@ -348,6 +360,13 @@ func nodeFor(p *prestate, v variant) (*node, error) {
 			n.close()
 			return nil, fmt.Errorf("parent block %d: %s", b.Height, o.Err)
 		}
+	}
+	if v.Generating {
+		if err := n.bc.VerifC06HoldSnapshotGeneration(); err != nil {
+			n.close()
+			return nil, fmt.Errorf("holding the snapshot generation: %v", err)
+		}
+		n.generating = true
 	}
 	return n, nil
 }
@@ -522,7 +541,7 @@ func localise(p *prestate, w *wireBlock, ref *obs, v variant, o *obs) (axis, fie
 			if bits&(1<<bit) == 0 {
 				continue
 			}
-			os := execute(p, variant{Cfg: cfgFromBits(1 << bit), Cold: v.Cold, Scratch: v.Scratch}, w)
+			os := execute(p, variant{Cfg: cfgFromBits(1 << bit), Cold: v.Cold, Scratch: v.Scratch, Generating: v.Generating}, w)
 			if f, _, _ := diff(ref, os); f != "" {
 				guilty = append(guilty, names[bit])
 			}
@@ -534,6 +553,12 @@ func localise(p *prestate, w *wireBlock, ref *obs, v variant, o *obs) (axis, fie
 	axis = strings.Join(guilty, "+")
 	if v.Cold {
 		axis += "+cold-restart"
+	}
+	if v.Generating {
+		// the same configuration with the FINISHED snapshot agrees with the reference: the unfinished generation is needed
+		if f, _, _ := diff(ref, execute(p, variant{Cfg: v.Cfg, Rep: v.Rep, Scratch: v.Scratch}, w)); f == "" {
+			axis += "+snapshot-still-generating"
+		}
 	}
 	return axis, field, a, b
 }
@@ -1163,6 +1188,8 @@ func main() {
 		pn = append(pn, p.id())
 	}
 	r.Set("parent_states", pn)
+	r.Set("executions_with_snapshot_still_generating", generatingExecs.Load())
+	r.Set("account_reads_answered_not_covered_yet", notCoveredProbes.Load())
 	nMain := 0
 	for _, t := range alphabet {
 		if !t.ChainOnly {
@@ -1197,6 +1224,7 @@ func main() {
 		"{snapshot layers as they come, all diff layers merged into the disk layer after every block (Tree.Cap(root,0)) on a long-running node} and compared field by field after EVERY block, "+
 		"on the +factory parent states (a CREATE2 factory in the genesis allocation; parent block 1 creates the contract through it) additionally the template mk2B that RE-CREATES the contract at the same address after a self-destruct (its constructor reads slot 1 before anything is written), "+
 		"including the contract's account and slots 1..5 read back through BlockChain.State() (field state-read-back); a chain is non-trivial if some block executed a transaction successfully; "+
+		"every single block and every chain is additionally executed by a snapshot node whose snapshot is STILL BEING GENERATED (generator held at its first step, empty generation marker: every disk-layer read answers ErrNotCoveredYet; measured before and after each execution); "+
 		"validator reports: every permutation of every report of <= 4 of 5 addresses x {absent, power 0, same power, other power} on 5 base sets")
 	r.Assume("Go's per-iteration map-order randomisation cannot be enumerated: it is exercised by the repetitions (>= 3 fresh executions per configuration, >= 12 per block) and by separate processes (thorough), not exhausted",
 		"TrieCleanNoPrefetch is carried through the enumeration but at this commit nothing in the block path consults it (StateDB.StartPrefetcher is never called): that axis cannot differ by construction",
@@ -1210,6 +1238,8 @@ func main() {
 		r.Require(clearThenRead > 0, "no chain cleared a non-zero genesis slot in one block and read it in a later block")
 		r.Require(readOK > 0, "template readB never executed successfully in a chain")
 		r.Require(recreated > 0, "no chain re-created the contract at the same address after a self-destruct")
+		r.Require(generatingExecs.Load() > 0 && notCoveredProbes.Load() > 0, fmt.Sprintf("no block was executed while the snapshot was still being generated (executions with genMarker != nil: %d, account reads answered ErrNotCoveredYet: %d)", generatingExecs.Load(), notCoveredProbes.Load()))
+		r.Require(generatingBroken.Load() == 0, fmt.Sprintf("%d executions of a 'snapshot still generating' node found the generation finished or the probe covered", generatingBroken.Load()))
 		r.Require(recreatedInBlock > 0, "no chain destructed and re-funded/re-created the contract's address within one block and paid it in a later block")
 		r.Require(flattenings.Load() > 0, "the snapshot was never flattened to disk (Tree.Cap(root, 0) never succeeded)")
 		for _, t := range alphabet {
@@ -1316,6 +1346,7 @@ func replay() {
 		}
 	}
 	vs[0].Scratch = true
+	vs = append(vs, variant{Cfg: cfgFromBits(0b0010), Rep: 1, Generating: true}, variant{Cfg: cfgFromBits(0b0111), Rep: 1, Generating: true})
 	cr := runCase(p, seq, 0, vs)
 	if cr.pr != nil {
 		fmt.Printf("  pool verdicts: %v ; proposed block order: %v\n", cr.pr.poolVerdict, cr.pr.pOrder)
